@@ -4,6 +4,8 @@ package main
 
 import (
 	"fmt"
+	"go/types"
+	"sort"
 	"strings"
 
 	"golang.org/x/tools/go/ssa"
@@ -390,3 +392,95 @@ func ruleWireFor(w *World, r *RuleResult) {
 }
 
 var _ *ssa.Function
+
+func init() {
+	register(&Rule{Name: "ALIAS.buf", Min: 2, Doc: "a slice buffer whose contents were handed to another location is never truncated and reused in place", Run: ruleAliasBuf})
+}
+
+// ruleAliasBuf: for every slice-typed struct field G whose value (or a reslice of
+// it) is stored into another location (another field, a map element), every
+// reset of G must install a fresh slice; `G = G[:0]` would let later appends
+// overwrite the elements the other location still refers to.
+func ruleAliasBuf(w *World, r *RuleResult) {
+	type fieldRef struct{ typ, name string }
+	loadOf := func(t *T) (fieldRef, bool) {
+		t = stripConv(t)
+		for t.Op == "slice" {
+			t = stripConv(t.A[0])
+		}
+		if t.Op == "sel" && t.A[0].Op == "deref" {
+			if _, ok := t.Ty.Underlying().(*types.Slice); ok {
+				return fieldRef{typeName(t.A[0].A[0].Ty), t.S}, true
+			}
+		}
+		return fieldRef{}, false
+	}
+	shared := map[fieldRef]string{}
+	type reuse struct {
+		f   fieldRef
+		pos string
+		fn  string
+	}
+	var reuses []reuse
+	for _, fn := range libFuncs(w) {
+		paths, err := w.Paths(fn)
+		if err != nil {
+			continue
+		}
+		for _, p := range paths {
+			for i := range p.Events {
+				e := &p.Events[i]
+				var dst *T
+				var val *T
+				switch e.Kind {
+				case "store":
+					dst, val = e.LV, e.Val
+				case "mapupdate":
+					dst, val = e.LV, e.Val
+				default:
+					continue
+				}
+				src, ok := loadOf(val)
+				if !ok {
+					continue
+				}
+				if e.Kind == "store" && dst.Op == "sel" && dst.A[0].Op == "deref" && dst.S == src.name && typeName(dst.A[0].A[0].Ty) == src.typ {
+					// G = G[...] : truncating reuse (a reslice of itself)
+					if stripConv(val).Op == "slice" {
+						reuses = append(reuses, reuse{src, w.Pos(instrPosE(e)), fn.Name()})
+					}
+					continue
+				}
+				where := "a map element"
+				if e.Kind == "store" {
+					where = "field " + dst.S
+					root := dst
+					for root.Op == "sel" || root.Op == "elem" {
+						root = root.A[0]
+					}
+					if root.Op == "new" || root.Op == "makeslice" {
+						continue // a temporary literal (varargs), not a lasting location
+					}
+				}
+				shared[src] = where + " in " + fn.Name()
+			}
+		}
+	}
+	var keys []fieldRef
+	for k := range shared {
+		keys = append(keys, k)
+	}
+	sort.Slice(keys, func(i, j int) bool { return keys[i].typ+keys[i].name < keys[j].typ+keys[j].name })
+	for _, k := range keys {
+		bad := false
+		for _, ru := range reuses {
+			if ru.f == k {
+				bad = true
+				r.bad(strings.TrimPrefix(k.typ, "*")+"."+k.name+"/reuse-in-"+ru.fn, ru.pos, fmt.Sprintf("buffer %s.%s is truncated and reused in place in %s, but its contents were handed to %s: the next append overwrites what that location still refers to", strings.TrimPrefix(k.typ, "*"), k.name, ru.fn, shared[k]))
+			}
+		}
+		if !bad {
+			r.ok(strings.TrimPrefix(k.typ, "*")+"."+k.name, "-", "handed to "+shared[k]+"; every reset installs a fresh slice")
+		}
+	}
+}
